@@ -480,7 +480,7 @@ mut('c16-empty-guard-dropped', ['C16', 'C06'], 'im2col_v2 no longer rejects an e
 mut('c16-twin-outsize-floordiv', ['C16', 'C06'], 'conv2d output size written with //', [(CT, "lW = int(np.floor((W_with_pad - dilation[1] * (kernel_size[1] - 1) - 1) / stride[1] + 1))\n    \n    return lH, lW", "lW = (W + 2 * padding[1] - dilation[1] * (kernel_size[1] - 1) - 1) // stride[1] + 1\n    \n    return lH, lW")], expect='silent')
 
 # ------------------------------------------------------------------------------------------------ C14
-mut('c14-ce-eps (revert of fix)', ['C14'], 'cross entropy composes NLL with log(softmax + eps), not log_softmax', [(K, "    log_softmax = log_softmax_forward(y_pred, 1)\n    log_likelihood = nll_loss_forward(log_softmax, y_true)", "    log_softmax = np.log(softmax_forward(y_pred, 1) + epsilon)\n    log_likelihood = nll_loss_forward(log_softmax, y_true)")], rules=['C14.TREE'])
+mut('c14-ce-eps (revert of fix)', ['C14'], 'cross entropy composes NLL with log(softmax + eps), not log_softmax', [(K, "    log_softmax = log_softmax_forward(y_pred, 1)\n    log_likelihood = nll_loss_forward(log_softmax, y_true)", "    log_softmax = np.log(softmax_forward(y_pred, 1) + epsilon)\n    log_likelihood = nll_loss_forward(log_softmax, y_true)")], rules=['C14.EXPLOG'])
 mut('c14-addmm-order', ['C14'], 'addmm_forward computes a + c @ b', [(K, "    return a + (b @ c)", "    return a + (c @ b)")], rules=['C14.TREE'])
 mut('c14-neuron-two-outputs', ['C14'], 'Neuron builds a Linear with 2 outputs', [(LY, "super().__init__(in_features, 1, bias=bias)", "super().__init__(in_features, 2, bias=bias)")], rules=['C14.TREE'])
 mut('c14-mean-backward-no-division', ['C14', 'C01'], 'mean_backward forgets to divide by the count', [(K, "    return out_grad / n_samples", "    return out_grad")], rules=['C14.TREE', 'C01.REDUCE'])
